@@ -385,6 +385,22 @@ fn systematic(orig: &[u8]) -> Vec<Vec<u8>> {
             {
                 let ch = &mut changed;
                 let mut f = Some(|sibs: &mut Vec<der::Node>, i: usize| {
+                    // BER forms of a primitive string (only the relaxed entry points may accept them): the same octets in
+                    // two segments, with more octets than the value may have, with an empty first segment
+                    if (sibs[i].tag == 0x04 || sibs[i].tag == 0x80) && opt < 4 && sibs[i].kids.is_none() {
+                        let c = sibs[i].content.clone();
+                        let h = c.len() / 2;
+                        let segs: Vec<Vec<u8>> = match opt {
+                            0 => vec![c[..h].to_vec(), c[h..].to_vec()],
+                            1 => vec![c[..h].to_vec(), c[h..].to_vec(), c[..h.max(1).min(c.len())].to_vec()],
+                            2 => vec![vec![], c.clone()],
+                            _ => vec![c.clone(), vec![0u8; 24]],
+                        };
+                        sibs[i].tag |= 0x20;
+                        sibs[i].content = crate::der::cat(&segs.iter().map(|x| crate::der::octets(x)).collect::<Vec<_>>());
+                        *ch = true;
+                        return
+                    }
                     if sibs[i].kids.is_some() { return }
                     let c = &sibs[i].content;
                     let new: Option<Vec<u8>> = match (sibs[i].tag, opt) {
